@@ -69,7 +69,7 @@ Theorem C06_whole_run : forall c pkts ff s shown e id ms,
 Proof.
   exact (fun c pkts ff s shown e id ms H1 H2 H3 H4 H5 =>
            c06_whole_run c pkts (eq_refl : Gen.Facts.cdp_offset_sampled_after = true) (eq_refl : Gen.Facts.error_sort_when_muted = true)
-                         H1 H2 H3 H4 H5 ff s shown e id ms).
+                         H1 H2 H3 (or_intror H4) H5 ff s shown e id ms).
 Qed.
 
 (* two inputs in which the unit's own packets are the same (same bytes at the same offsets): the unit's part of the two reports is the same *)
